@@ -420,9 +420,9 @@ impl<R: Read + io::Seek> ZipArchive<R> {
         let (archive_offset, directory_start, number_of_files) =
             Self::get_directory_counts(&mut reader, &footer, cde_start_pos)?;
 
-        // If the parsed number of files is greater than the offset then
-        // something fishy is going on and we shouldn't trust number_of_files.
-        let file_capacity = if number_of_files > cde_start_pos as usize {
+        // A central directory header takes at least 46 bytes and the directory ends in front of
+        // the end record: a larger count is a lie, so we do not pre-allocate for it.
+        let file_capacity = if number_of_files > cde_start_pos as usize / 46 {
             0
         } else {
             number_of_files
